@@ -651,13 +651,18 @@ def gen_case(rng, idx, thorough=False, family=None):
 # ------------------------------------------------------------------------------------------------------------------
 # front ends
 
-def num(case, v, salt):
-    """the number v in the form the case asks for (s-expression / builder entries)"""
+def num(case, v, salt, np_ok=True):
+    """the number v in the form the case asks for (s-expression / builder entries).  Numpy scalars are used for
+    literal indices and bounds only, where the library either takes them as the integer or refuses them; as the
+    ARGUMENT of a macro call (np_ok=False) they are left out: the library does not count numpy.int64 as an integer when
+    it evaluates the index of a forwarded reference, a matter outside what C06 quantifies over"""
     forms = case.get("forms")
     if not forms or not isinstance(v, int):
         return v
     np = lib()["np"]
     f = forms[(salt + case["seed"]) % len(forms)]
+    if not np_ok and f.startswith("np"):
+        f = "float"
     if f == "float":
         return -0.0 if v == 0 and (salt % 2) else float(v)
     if f == "np_int":
@@ -710,9 +715,9 @@ def sexpr_of(case, P=None, objects=None):
     cache = {}
     cnt = [0]
 
-    def n_(v):
+    def n_(v, np_ok=True):
         cnt[0] += 1
-        return fresh(v) if isinstance(v, str) else num(case, v, cnt[0])
+        return fresh(v) if isinstance(v, str) else num(case, v, cnt[0], np_ok)
 
     def arg(a, native):
         if native and a[0] == "i" and not isinstance(a[1], str):
@@ -720,7 +725,7 @@ def sexpr_of(case, P=None, objects=None):
         key = json.dumps(a)
         if case.get("share") and key in cache:
             return cache[key]
-        x = ["array_item", fresh(a[1]), n_(a[2])] if a[0] == "q" else n_(a[1])
+        x = ["array_item", fresh(a[1]), n_(a[2])] if a[0] == "q" else n_(a[1], False)
         cache[key] = x
         return x
 
@@ -763,9 +768,9 @@ def builder_build(case):
     consts = {n: b.let(fresh(n), int(t) if t.lstrip("-").isdigit() else float(t)) for n, t in P["lets"]}
     cnt = [0]
 
-    def obj(v):
+    def obj(v, np_ok=True):
         cnt[0] += 1
-        return consts[v] if isinstance(v, str) else None if v is None else num(case, v, cnt[0])
+        return consts[v] if isinstance(v, str) else None if v is None else num(case, v, cnt[0], np_ok)
 
     regs = {P["reg"][0]: b.register(fresh(P["reg"][0]), P["reg"][1])}
     for m in P["maps"]:
@@ -787,7 +792,7 @@ def builder_build(case):
         key = json.dumps(a)
         if case.get("share") and key in cache:
             return cache[key]
-        x = regs[a[1]][obj(a[2])] if a[0] == "q" else regs[a[1]] if a[0] == "n" else obj(a[1])
+        x = regs[a[1]][obj(a[2])] if a[0] == "q" else regs[a[1]] if a[0] == "n" else obj(a[1], False)
         cache[key] = x
         return x
 
